@@ -238,10 +238,10 @@ class Ctx:
             return True
         if r == z3.sat:
             m = self.solver.model()
-            hints = self.small_hints()
-            if hints:
+            for hints in self.small_hints():
                 if self.solver.check(z3.Not(g), *hints) == z3.sat:
                     m = self.solver.model()
+                    break
             if getattr(self, 'extractor', None):
                 m = ModelInfo(self.extractor(m), str(m)[:3000])
             self.obligations.append(Obligation(name, 'failed', detail, model=m, goal=g.sexpr()[:2000], solver=solver,
@@ -262,22 +262,28 @@ class Ctx:
         return False
 
     def small_hints(self):
-        hs = []
-        for name, desc in self.input_syms.items():
-            if desc[0] == 'bytes' and not isinstance(desc[2], int):
-                hs.append(desc[2] <= 96)
-            elif desc[0] == 'int':
-                hs.append(z3.And(desc[1] >= -70000, desc[1] <= 70000))
-        return hs
+        """progressively looser size hints used only to pick a small counterexample"""
+        out = []
+        for ln, iv in ((96, 300), (1024, 70000), (16384, 70000)):
+            hs = []
+            for name, desc in self.input_syms.items():
+                if desc[0] == 'bytes' and not isinstance(desc[2], int):
+                    hs.append(desc[2] <= ln)
+                elif desc[0] == 'int':
+                    hs.append(z3.And(desc[1] >= -iv, desc[1] <= iv))
+            if hs:
+                out.append(hs)
+        return out
 
     def fail(self, name, detail, kind='frame'):
         """an obligation that fails syntactically / structurally on this (feasible) path"""
         r = self._check()
         m = self.solver.model() if r == z3.sat else None
         if m is not None:
-            hints = self.small_hints()
-            if hints and self.solver.check(*hints) == z3.sat:
-                m = self.solver.model()
+            for hints in self.small_hints():
+                if self.solver.check(*hints) == z3.sat:
+                    m = self.solver.model()
+                    break
             if getattr(self, 'extractor', None):
                 m = ModelInfo(self.extractor(m), str(m)[:3000])
         self.obligations.append(Obligation(name, 'failed' if r != z3.unsat else 'discharged', detail, model=m,
